@@ -61,17 +61,21 @@ def _check(prog, cfgs, out, size, driver, must_accept, minver=2, extra=None):
         cnt["traces_validated"] = cnt.get("traces_validated", 0) + 1
         oc[cls] = oc.get(cls, 0) + 1
         feats = dict(extra or {}, driver=driver, outcome=cls)
+        rec_prog = prog
+        if driver in ("deep-expr", "deep-if"):
+            # a term nested hundreds of levels deep cannot be serialised: the record names its generator
+            rec_prog = dict(prog, main={"__gen__": driver, "n": size})
         if cls.startswith("CRASH:"):
             out["violations"].append({
                 "driver": driver, "size": size, "kind": "crash",
                 "title": "%s: compile died with %s: %s (v%d %s)" % (driver, cls[6:], str(exc)[:80], cfg.version, cfg.mode),
-                "recipe": prog, "cfg": cfg.to_json(), "features": dict(feats, kind="crash"),
+                "recipe": rec_prog, "cfg": cfg.to_json(), "features": dict(feats, kind="crash"),
             })
         elif cls != "TEAL" and must_accept and (cfg.mode == "A"):
             out["violations"].append({
                 "driver": driver, "size": size, "kind": "rejected_valid",
                 "title": "%s: valid program rejected with %s: %s (v%d)" % (driver, cls, str(exc)[:100], cfg.version),
-                "recipe": prog, "cfg": cfg.to_json(), "features": dict(feats, kind="rejected_valid"),
+                "recipe": rec_prog, "cfg": cfg.to_json(), "features": dict(feats, kind="rejected_valid"),
             })
 
 
@@ -84,6 +88,13 @@ def _worker(items, base):
     if items and base % 1499 == 0:
         out["samples"].append({"driver": items[0][2], "recipe": items[0][1]})
     return out
+
+
+def deep_expr(n):
+    t = ["Int", 1]
+    for _ in range(n):
+        t = ["BitwiseXor", t, ["Int", 1]]
+    return t
 
 
 def long_programs(tier):
@@ -101,13 +112,11 @@ def long_programs(tier):
             t = ["If", ["Int", 1], t, ["TickS", 2]]
         out.append((d, {"mode": "A", "vars": {}, "subs": {}, "main": ["Seq", t, ["Int", 1]]}, "deep-if", True, 2,
                     {"n": d, "n_over_900": False, "depth_over_150": d > 150}))
-    for n in ([10, 100, 400] if tier == "quick" else [10, 50, 100, 200, 400, 800]):
-        # long operand chains (n-ary Add): expression depth, not block count
-        t = ["Int", 1]
-        for _ in range(n):
-            t = ["BitwiseXor", t, ["Int", 1]]
-        out.append((n, {"mode": "A", "vars": {}, "subs": {}, "main": t}, "deep-expr", True, 2,
-                    {"n": n, "n_over_900": False, "depth_over_150": n > 150}))
+    for n in ([10, 100, 400, 600, 1100] if tier == "quick" else [10, 50, 100, 200, 400, 450, 500, 600, 800, 950, 1100, 2000]):
+        # long operand chains (x ^ 1 ^ 1 ... as a user's reduce() over a list builds them): expression depth,
+        # not block count
+        out.append((n, {"mode": "A", "vars": {}, "subs": {}, "main": deep_expr(n)}, "deep-expr", True, 2,
+                    {"n": n, "n_over_900": False, "depth_over_150": n > 150, "depth_over_450": n > 450}))
     for n in ([200, 550] if tier == "quick" else [100, 400, 800, 1100]):
         main = ["Seq"] + [["If", ["Int", 1], ["TickS", 1]]] * n + [["Int", 1]]
         out.append((n, {"mode": "A", "vars": {}, "subs": {}, "main": main}, "long-if-seq", True, 5,
@@ -264,7 +273,12 @@ def run(tier):
 
 def replay(case):
     cfg = rb.Cfg.from_json(case["cfg"])
-    cls, exc = classify(case["recipe"], cfg)
+    recipe = case["recipe"]
+    if isinstance(recipe.get("main"), dict) and "__gen__" in recipe["main"]:
+        g = recipe["main"]
+        same = [p for n, p, d, _a, _m, _e in long_programs("thorough") + long_programs("quick") if d == g["__gen__"] and n == g["n"]]
+        recipe = same[0]
+    cls, exc = classify(recipe, cfg)
     print("outcome:", cls, str(exc)[:300] if exc else "")
     if case.get("kind") == "crash":
         return cls.startswith("CRASH:")
